@@ -878,7 +878,7 @@ pub fn run_c18(tier: Tier) -> Outcome {
     one!(CollideAll, "all-colliding (every hash = 0)");
     // deep seeds under the degenerate hasher
     for n in if q { vec![8usize] } else { vec![8, 9, 16, 17] } {
-        let mut c = seeds_cfg(prop, n, &REL_BIN, A_CORE | A_RETAIN | A_CONVERT | A_BORROWED);
+        let mut c = seeds_cfg(prop, n, &REL_BIN, A_CORE | A_RETAIN | A_CONVERT | A_BORROWED | A_EXTEND | A_APPEND | A_ITER_MUT | A_CLEAR_DRAIN);
         c.deep = n <= 9;
         let seeds = if n <= 8 { f_bin(n) } else { f_seg(n) };
         run_seeds::<CollideAll>(&mut out, &format!("E2 seeds of {n} elements, all-colliding hasher, depth 1"), &c, seeds.clone(), 1, &no_probes);
